@@ -182,22 +182,27 @@ def _role_triples(ctx, f, writeback):
     for loop in [n for n in ast.walk(f.node) if isinstance(n, ast.For) and C.is_call_to(n.iter, "chain")]:
         roles = tuple(sorted(C.str_consts(loop.iter)))
         var = U(loop.target)
-        for br in [n for n in ast.walk(loop) if isinstance(n, ast.If)]:
-            b = pm.match("isinstance(%s, M_cls)" % var, br.test)
-            if b is None:
+        for c in C.calls_to(loop, "is_reg_dependend_of", "is_flag_dependend_of"):
+            if len(c.args) < 2 or U(c.args[0]) != reg:
                 continue
-            cls = U(b["M_cls"])
-            for c in C.calls_to(br, "is_reg_dependend_of", "is_flag_dependend_of"):
-                if U(c.args[0]) != reg:
-                    continue
-                tgt = U(c.args[1])
-                part = "self" if tgt == var else tgt.replace(var + ".", "")
-                if writeback:
-                    facts = [U(e) for e, p in C.facts_at(c, stop=br) if p]
-                    wb = any("%s.pre_indexed or %s.post_indexed" % (var, var) == x for x in facts)
-                    if part != "self":
-                        part = part + ("@writeback" if wb else "@always")
-                out.add((roles, cls, part))
+            # the operand class under which the call is made: the positive isinstance facts on the loop variable
+            allf = C.facts_at(c, stop=loop)
+            clss = []
+            for e, p in allf:
+                m = pm.match("isinstance(%s, M_cls)" % var, e)
+                if m is not None and p:
+                    clss.append(U(m["M_cls"]))
+            if len(clss) != 1:
+                continue
+            cls = clss[0]
+            tgt = U(c.args[1])
+            part = "self" if tgt == var else tgt.replace(var + ".", "")
+            if writeback:
+                facts = [U(e) for e, p in allf if p]
+                wb = any(C.CT("%s.pre_indexed or %s.post_indexed" % (var, var)) == x for x in facts)
+                if part != "self":
+                    part = part + ("@writeback" if wb else "@always")
+            out.add((roles, cls, part))
     return out
 
 
@@ -372,7 +377,7 @@ def _r6(ctx):
             elif any("'aarch64'" in t and "==" in t for t in pos):
                 key = "aarch64"
             if key:
-                out.setdefault(key, r_.value)
+                out.setdefault(key, C.flow_of(f).subst(r_.value))
         return out
 
     s, d = by_isa(src), by_isa(dst)
@@ -380,8 +385,10 @@ def _r6(ctx):
 
     def slice_of(e):
         """(lower, upper) of a slice / comprehension over a slice of the operand list; None if not a slice."""
-        if isinstance(e, ast.ListComp) and len(e.generators) == 1 and U(e.elt) == U(e.generators[0].target):
+        if isinstance(e, ast.ListComp) and len(e.generators) == 1 and U(e.elt) == U(e.generators[0].target) and not e.generators[0].ifs:
             e = e.generators[0].iter
+        if isinstance(e, ast.Call) and isinstance(e.func, ast.Name) and e.func.id == "list" and len(e.args) == 1 and not e.keywords:
+            e = e.args[0]           # list(<slice>) is the same fresh list as the identity comprehension
         if isinstance(e, ast.Subscript) and U(e.value) == ops and isinstance(e.slice, ast.Slice):
             lo = C.const_num(e.slice.lower) if e.slice.lower is not None else 0
             hi = C.const_num(e.slice.upper) if e.slice.upper is not None else None
@@ -396,6 +403,10 @@ def _r6(ctx):
     for isa, (ws, wd) in want.items():
         gs, gd = slice_of(s.get(isa)) if isa in s else None, slice_of(d.get(isa)) if isa in d else None
         ok = gs == ws and gd == wd
+        if gs is None or gd is None:
+            ctx.unknown("R6", "default roles %s" % isa, src.where(), "the default source / destination operands of %s are not written as a "
+                        "slice of the operand list (%s / %s)" % (isa, U(s[isa]) if isa in s else None, U(d[isa]) if isa in d else None))
+            continue
         ctx.check(ok, "R6", "%s: sources %s, destination %s" % (isa, ws, wd), src.where(),
                   "default roles for %s are sources=%s destination=%s (expected operands[%s:%s] / operands[%s:%s]): the "
                   "destination is not the %s operand or an operand is in neither/both roles" % (
